@@ -252,6 +252,7 @@ def hypothesis_chunk(args: tuple) -> dict:
             return
         state['n'] += 1
         res = runner.run_spec(spec)
+        campaign.after_run()
         done.append(spec)
         campaign.fold(agg, spec, res, sub)
         if res['status'] != 'ok':
